@@ -212,20 +212,6 @@ func (c *MJSocialComponent) getAttribute(name string) string {
 
 // Render implements optimized Writer-based rendering for MJSocialComponent
 func (c *MJSocialComponent) Render(w io.StringWriter) error {
-	hasTextContent := false
-	for _, child := range c.Children {
-		if elem, ok := child.(*MJSocialElementComponent); ok {
-			if strings.TrimSpace(elem.Node.Text) != "" || len(elem.Node.Children) > 0 {
-				hasTextContent = true
-				break
-			}
-		}
-	}
-
-	if hasTextContent {
-		c.getAttribute(constants.MJMLFontFamily)
-	}
-
 	padding := c.getAttribute(constants.MJMLPadding)
 	align := c.getAttribute(constants.MJMLAlign)
 	mode := c.getAttribute(constants.MJMLMode)
